@@ -167,7 +167,15 @@ impl<'a> Ctx<'a> {
         for (key, evs) in &edges {
             let EdgeKey::Pup(pup, inst) = key else { continue };
             let first = &evs[0];
-            let tag = ix.spans[first.span].tag;
+            // the subscription on whose behalf the instance was created (recorded by the puppet)
+            let tag = h
+                .log
+                .iter()
+                .find_map(|e| match e {
+                    Ev::Owner { pup: p, inst: k, owner } if p == pup && k == inst => Some(*owner),
+                    _ => None,
+                })
+                .unwrap_or(ix.spans[first.span].tag);
             let sub = subs.iter().rposition(|s| s.sink == tag && s.attach_at < first.start);
             let mut info = InstInfo {
                 pup: *pup,
